@@ -91,6 +91,17 @@ func (t *AppendOnlyTree) AddLeaf(tx dbtypes.Txer, blockNum, blockPosition uint64
 	return nil
 }
 
+// Reorg deletes all the data relevant from firstReorgedBlock (includded) and onwards
+// and invalidates the frontier cache, which may refer to deleted roots: otherwise a leaf
+// whose index happens to follow the stale cached index is accepted without a rebuild
+func (t *AppendOnlyTree) Reorg(tx dbtypes.Txer, firstReorgedBlock uint64) error {
+	if err := t.Tree.Reorg(tx, firstReorgedBlock); err != nil {
+		return err
+	}
+	t.lastIndex = -2
+	return nil
+}
+
 func (t *AppendOnlyTree) initCache(tx dbtypes.Txer) error {
 	siblings := [types.DefaultHeight]common.Hash{}
 	lastRoot, err := t.getLastRootWithTx(tx)
